@@ -389,3 +389,7 @@ func VF_C05_P11()    { program(1, 1, 1, true) }
 func VF_C05_P21()    { program(1, 2, 1, true) }
 func VF_C05_P22()    { program(1, 2, 2, true) }
 func VF_C05_R2_P11() { program(2, 1, 1, true) }
+
+// one transaction alone with two statements: it must see its own writes (e.g. delete, then read through the index)
+func VF_C04_Own_2() { program(1, 2, 0, false) }
+func VF_C04_Own_3() { program(1, 3, 0, false) }
